@@ -113,7 +113,7 @@ func (r *Run) handleCounterexample(jr *JobResult, ob *ObligResult) int {
 				continue
 			}
 			qk := &Query{Text: r.declsFor(ob.q, jr, k.Exclude) + ob.q.Text + "(assert " + k.Exclude + ")\n", Decl: ob.q.Decl}
-			res := r.pool.Solve(qk, r.o.Timeout, false)
+			res := r.solvePortfolio(qk)
 			switch res.Status {
 			case "sat":
 				r.reportKnown(k)
@@ -133,7 +133,7 @@ func (r *Run) handleCounterexample(jr *JobResult, ob *ObligResult) int {
 				text += "(assert (not " + e + "))\n"
 			}
 			q2 := &Query{Text: text, VarList: ob.q.VarList, Nodes: ob.q.Nodes, Cells: ob.q.Cells, Decl: ob.q.Decl}
-			res := r.pool.Solve(q2, r.o.Timeout, true)
+			res := r.solvePortfolio(q2)
 			switch res.Status {
 			case "unsat":
 				ob.Verdict += "(no counterexample outside the recorded patterns)"
